@@ -435,9 +435,12 @@ func NewTemporalFactStoreAdapterAt(temporal TemporalFactStore, t time.Time) *Tem
 
 // Add adds a fact as eternal (valid for all time).
 // Note: errors from temporal store are logged but not returned per FactStore interface.
+// It returns true only if the atom was not visible through this adapter before:
+// an atom that Contains already reports is made eternal, but it is not a new fact.
 func (a *TemporalFactStoreAdapter) Add(atom ast.Atom) bool {
+	present := a.Contains(atom)
 	added, _ := a.temporal.AddEternal(atom)
-	return added
+	return added && !present
 }
 
 // Contains returns true if the fact exists (respecting queryAt if set).
